@@ -282,6 +282,7 @@ type stub struct {
 	rpcc       *ttrpc.Client
 	runtime    api.RuntimeService
 	started    bool
+	session    uint64
 	doneC      chan struct{}
 	srvErrC    chan error
 	cfgErrC    chan error
@@ -397,9 +398,11 @@ func (stub *stub) Start(ctx context.Context) (retErr error) {
 		return fmt.Errorf("failed to multiplex ttrpc client connection: %w", err)
 	}
 
+	stub.session++
+	session := stub.session
 	clientOpts := []ttrpc.ClientOpts{
 		ttrpc.WithOnClose(func() {
-			stub.connClosed()
+			stub.connClosed(session)
 		}),
 	}
 	rpcc := ttrpc.NewClient(conn, append(clientOpts, stub.clientOpts...)...)
@@ -576,10 +579,13 @@ func (stub *stub) register(ctx context.Context) error {
 	return nil
 }
 
-// Handle a lost connection.
-func (stub *stub) connClosed() {
+// Handle a lost connection. Only the session the closed client belonged to is
+// torn down: a notification that arrives late must not close a newer session.
+func (stub *stub) connClosed(session uint64) {
 	stub.Lock()
-	stub.close()
+	if session == stub.session {
+		stub.close()
+	}
 	stub.Unlock()
 	if stub.onClose != nil {
 		stub.onClose()
